@@ -1002,11 +1002,12 @@ def run(chk):
                        "an inode never changes its file type (same device+inode+size+mtime implies same S_IFMT bits)",
                        "fnmatch is a Section variable (matches) in the theorems; the extracted model instantiates it with a byte-wise glob ('*', '?', literals) checked against libc fnmatch on the generated patterns and names",
                        "llvm::hash_combine chain idealised: one collision-free 64-bit function of the sequence of combined items on the finite set of sequences that occur (hash_good)",
-                       "every build is a new process over one database (--db); the model threads one database state"]
+                       "every build is a new process over one database (--db); the model threads one database state",
+                       "scenarios whose watched directories are OUTPUTS of mkdir-tool commands are judged by the snapshot oracle only (the Coq model covers input directories); the own stat record of such a directory is not required to trigger (its producer's result stays valid while the directory exists)"]
     return chk.finish(level="proof",
                       rule="fixed corpus (inputs of the repaired and known findings, deep last-child edits, missing/file roots) plus generated scenarios: a random tree (depth <= 3, fan-out <= 3; files, directories, symlinks inside/outside/dangling, fifos; names with spaces and dots) "
-                           "materialised with explicit distinct mtimes, then 3-5 batches of 1-3 edits (content with/without size change, mtime-only incl. +1ns, add/remove/rename/move/retype, replace inode, chmod, edits inside excluded names, directory mtime bumped or restored, link<->file, root removed/retyped), "
-                           "each followed by a build in a fresh process; with and without content-exclusion-patterns. Every build's 'ran again?' for the tree and the structure command is compared with the extracted model and with the snapshot oracle. "
+                           "materialised with explicit distinct mtimes, then 3-5 batches of 1-3 edits (content with/without size change, mtime-only incl. +1ns, add/remove/rename/move/retype, replace inode, chmod, edits inside excluded names, directory mtime bumped or restored, link<->file, links to an entry of the same directory added/removed/retargeted directory<->file, file<->fifo, root removed/retyped), "
+                           "each followed by a build in a fresh process; with and without content-exclusion-patterns (globs, backslash escapes, bracket expressions, plain names); watched directories pre-existing or produced by mkdir commands of the description. Every build's 'ran again?' for the tree and the structure command is compared with the extracted model and with the snapshot oracle. "
                            "non-trivial = builds where the oracle demands a re-run of at least one command; distinct by (family, filtered?, edit labels, outcome)",
                       trusted=["hand-written model coq/BSys/DirTree.v tied by correspondence at the CLI only", "Python os.lstat/os.stat/os.listdir/realpath and libc fnmatch (ctypes) as independent observers",
                                "fnmatch is a Section variable (matches); extracted model uses the glob of ocaml/vmodel_dirtree.ml", "ideal hash: hash_good premise of the signature-level theorems",
